@@ -1,6 +1,7 @@
 """Column name sanitization and uniquification utilities."""
 
 from __future__ import annotations
+import keyword
 import re
 
 
@@ -28,6 +29,9 @@ def _get_reserved_names():
 				attr = getattr(cls, name, None)
 				if callable(attr) or isinstance(attr, property):
 					reserved.add(name.lower())
+		
+		# Python keywords cannot be written after a dot either (t.class is a SyntaxError)
+		reserved.update(keyword.kwlist)
 		
 		_get_reserved_names._cache = reserved
 	
